@@ -31,6 +31,14 @@ OpText(C, r) ==
       \* an explicit byte offset "+off" makes the operation one fragment of a Read / Write Tag Fragmented transfer
       offs == IF r.svc \in {"readf", "writef"} THEN "+" \o ToString(r.off) ELSE ""
   IN IF r.svc \in {"read", "readf", "gas"} THEN base \o range \o offs ELSE base \o range \o offs \o "=(" \o r.typ \o ")" \o Csv(r.typ, r.vals)
+\* A write spelled WITHOUT a cast: integer values denote the default integer type of the entry point that parses the text --
+\* INT for tag operations (client.parse_operations), SINT for attribute operations (get_attribute.attribute_operations)
+DefaultIntType(r) == IF r.svc = "sas" THEN "SINT" ELSE "INT"
+PlainText(C, r) ==
+  LET T == C.tags[r.tag]
+      base == IF r.mode = "sym" THEN Str(T.name) ELSE "@" \o ToString(T.cia[1]) \o "/" \o ToString(T.cia[2]) \o "/" \o ToString(T.cia[3])
+      range == IF r.idx < 0 THEN "" ELSE "[" \o ToString(r.idx) \o "-" \o ToString(r.idx + r.n - 1) \o "]"
+  IN base \o range \o "=" \o Csv(r.typ, r.vals)
 
 \* ---- what the application must observe
 \* fragment mode issues the fragmented services (offset 0)
